@@ -30,6 +30,8 @@ structure SemCase where
   ids : Array String
   names : Json
   stm : Json
+  /-- constants of the final IR by node id: what the compiler claims for a name it does not materialise -/
+  irConsts : List (String × SigMap) := []
 
 def idxOfId (ids : Array String) (id : String) : Option Nat := ids.findIdx? (· == id)
 
@@ -60,7 +62,14 @@ def buildObs (c : SemCase) : List Observation × (Sig → Sig) :=
     | none =>
       match idxOfId c.ids src with
       | some i => some { name := nm.name, idx := i, atAnchor := false, sig, node := nm.node }
-      | none => none)
+      | none =>
+        -- constant propagation replaces a node by `<id>_folded`
+        match idxOfId c.ids (src ++ "_folded") with
+        | some i => some { name := nm.name, idx := i, atAnchor := false, sig, node := nm.node }
+        | none =>
+        match (c.irConsts.lookup src).orElse (fun _ => c.irConsts.lookup (src ++ "_folded")) with
+        | some m => some { name := nm.name, idx := 0, atAnchor := false, sig, node := nm.node, claim := some m }
+        | none => none)
   (obs, ren)
 
 def buildInputs (c : SemCase) : List InputBinding :=
@@ -101,7 +110,15 @@ def runSem (j : Json) : Json :=
         if core.nodes.any (fun nd => match nd with | .entOut e => e == k | _ => false) then
           (placed0[k]?).bind (idxOfId ids)
         else none)
-      let c : SemCase := { core, bp, circ := { bp.toCircuit with sources := srcIdx }, ids, names := jgetD j "names", stm := jgetD j "signal_type_map" }
+      let stm := jgetD j "signal_type_map"
+      let irConsts : List (String × SigMap) := ((jgetD j "ir_final").getArr?.toOption.getD #[]).toList.filterMap (fun op =>
+        if jstrD op "kind" != "IRConst" then none else
+        let sigs : List (Sig × I32) := match (jgetD op "signals").getObj? with
+          | .ok o => o.toList.map (fun (k, v) => (factorioName stm k, i32 (v.getInt?.toOption.getD 0)))
+          | .error _ => []
+        let m : SigMap := if sigs.isEmpty then [(factorioName stm (jstrD op "output_type"), i32 ((jgetD op "value").getInt?.toOption.getD 0))] else sigs
+        some (jstrD op "id", m.filter (fun (_, v) => v != 0)))
+      let c : SemCase := { core, bp, circ := { bp.toCircuit with sources := srcIdx }, ids, names := jgetD j "names", stm, irConsts }
       let (obs, ren) := buildObs c
       let inputs := buildInputs c
       let seed := (jnatD j "seed" 1).toUInt64
@@ -364,6 +381,8 @@ def runSem (j : Json) : Json :=
         ("retype_ok", Json.bool retypeOk), ("n_implicit", (core.nodes.toList.filter (fun nd => match nd.ty? with | some ty => isImplicit ty | none => false)).length),
         ("n_nodes", core.nodes.size), ("n_obs", obs.length), ("n_inputs", inputs.length),
         ("obs", Json.arr (obs.map (fun o => Json.str o.name)).toArray),
+        ("claimed", Json.arr ((obs.filter (·.claim.isSome)).map (fun o => Json.str o.name)).toArray),
+        ("unobserved", Json.arr (((core.named.toList.filter (·.topLevel)).filter (fun nm => !obs.any (·.name == nm.name))).map (fun nm => Json.str nm.name)).toArray),
         ("unsupported", Json.arr (unsupported.map Json.str).toArray),
         ("wire", wireJson), ("history", histJson), ("valuations", done), ("mismatches", Json.arr (ms.map Mismatch.toJson).toArray)]
 
